@@ -12,6 +12,8 @@ NPROC = int(os.environ.get('VF_NPROC', '16'))
 
 _ctx = None
 _fams = None
+# wall-clock cap (s) of the engine-A part of a check; instances not finished by then are reported inconclusive(time-budget), never passed
+WALL_CAP = {'thorough': 2400}
 
 
 def _init_worker(workdir):
@@ -37,7 +39,13 @@ def run_llir(prop, families, tier, seed, workdir):
     for fi, fam in enumerate(families):
         for inst in fam.instances(tier):
             tasks.append((fam.cost(inst), fi, inst))
-    tasks.sort(key=lambda x: -x[0])
+    cap = WALL_CAP.get(tier)
+    if os.environ.get('VF_WALL_CAP'):
+        cap = float(os.environ['VF_WALL_CAP'])
+    tasks.sort(key=lambda x: -x[0])    # largest first (makespan)
+    if cap:
+        for fam in families:
+            fam._global_deadline = time.time() + cap
     work = [(fi, inst, tier, seed, known_active) for _, fi, inst in tasks]
     # build IR + drivers once in the parent so that workers inherit them (fork)
     ctx = harness.Ctx(workdir)
